@@ -11,6 +11,7 @@ from .. import core
 from ..core import cz, clist
 from ..runner import Entry, differential
 from . import c13_geom as g
+from . import c13_translate as tr
 
 PRE = ("From Coq Require Import QArith.\nFrom EsVerif.Common Require Import Base.\n"
        "From EsVerif.C13 Require Import Model Spec Exec.\nOpen Scope Z_scope.\n")
@@ -20,6 +21,20 @@ BORDER = 1e-9 * (1 + 1e-6)      # the statement's unconstrained zone (relative),
 FLAG = 1e-13                    # |dcos| below which the exact value is sent to Coq for the class predicate
 
 _H = {}
+
+# what c13_translate read out of the sources of the tree under test; the defaults (statement: floor,
+# no margin) are used only when the translation failed, which is reported as a violation by run()
+GEN = {"index": "floor", "pad_deg": Fraction(0), "epsilon": Fraction(1, 10 ** 15), "error": None}
+
+
+def load_gen():
+    root = os.environ.get("VERIF_IMPL")
+    try:
+        GEN.update(tr.translate(root))
+        GEN["error"] = None
+    except tr.TranslateError as e:
+        GEN["error"] = str(e)
+    return GEN
 
 
 def htm_of(depth):
@@ -319,10 +334,25 @@ class Bincount(C13Entry):
     name = "bincount"
 
     def kterm(self, c, out):
-        return self._term("k_bincount", c, out, zones=True)
+        return self._term("k_bincount_x", c, out, zones=True)
 
     def flagged(self, c, out):
         return out[0] == "ok" and len(out[1]["zones"]) > 0
+
+    def classify(self, c, out, v):
+        k = C13Entry.classify(self, c, out, v)
+        if k is not None or out[0] != "ok":
+            return k
+        # not a known finding.  A diagnostic label (never listed in known_findings.json, so still a VIOLATION)
+        # keeps the replay of a bin-0 excess caused by separations below rmin apart from other failures
+        o = out[1]
+        flat = [p for row in o["pairs"] for p in row]
+        floor0 = sum(1 for t, x in flat if t == 1 and 0 <= x < 2 ** 40)
+        amb0 = sum(1 for t, x in flat if t == 2 and x in (0, 1))
+        below = sum(1 for t, x in flat if t == 1 and -2 ** 40 < x < 0)
+        if below and o["outs"][0][0] > floor0 + amb0:
+            return "C13.diag_counted_below_rmin"
+        return None
 
     # ---- generators
     def _points(self, r, kind, n):
@@ -470,8 +500,9 @@ class Bincount(C13Entry):
                 s = 1.0 if scale is None else (scale[i1] if isinstance(scale, list) and len(scale) > 1 else
                                                (scale[0] if isinstance(scale, list) else scale))
                 ang = c["rmax"] / s
-                covers.append([int(x) for x in h.intersect(float(ra1[i1]), float(dec1[i1]),
-                                                           ang if scale is None else math.degrees(ang), inclusive=True)])
+                # the cap cbincount searches: maxangle plus the margin read from the source (c13_translate)
+                capdeg = min((ang if scale is None else math.degrees(ang)) + float(GEN["pad_deg"]), 180.0)
+                covers.append([int(x) for x in h.intersect(float(ra1[i1]), float(dec1[i1]), capdeg, inclusive=True)])
             cc = dict(c)
             if isinstance(scale, list) and len(scale) == 1:
                 cc["scale"] = scale[0]
@@ -485,7 +516,7 @@ class Bincount(C13Entry):
 
     def _term(self, fn, c, out, zones=False, outs=True):
         o = out[1]
-        t = [fn, cz(c["nbin"]), cz(o["mn"]), cz(o["mx"]),
+        t = [fn, "1" if GEN["index"] == "cast" else "0", cz(c["nbin"]), cz(o["mn"]), cz(o["mx"]),
              "[" + "; ".join("(%s, %s)" % (cz(n), cz(v)) for n, v in o["rle"]) + "]",
              clist(o["ids2"]), clists(o["covers"]),
              "[" + "; ".join("[" + "; ".join("(%d, %s)" % (t_, cz(v)) for t_, v in row) + "]" for row in o["pairs"]) + "]"]
@@ -502,14 +533,14 @@ class Bincount(C13Entry):
     def term(self, c, out):
         if out[0] != "ok":
             return "3"
-        return self._term("v_bincount", c, out)
+        return self._term("v_bincount_x", c, out)
 
     def nontrivial(self, c, out):
         return out[0] == "ok" and sum(out[1]["outs"][0]) >= 1 and len(c["ra2"]) >= 2
 
     def show(self, c):
         _, out = self._seen[key(c)]
-        return self._term("show_bincount", c, out, outs=False) if out[0] == "ok" else None
+        return self._term("show_bincount_x", c, out, outs=False) if out[0] == "ok" else None
 
 
 ENTRIES = [Ids(), Intersect(), Bincount()]
@@ -597,6 +628,36 @@ def real_lemmas(ctx):
                           found_input=False)
 
 
+def translation_step(ctx):
+    """regenerate the source-dependent parts of the model (c13_translate, fail-closed) and re-check, in Coq,
+    the statements that depend on them"""
+    gen = load_gen()
+    ctx.obligation("translation of htmc.cc:cbincount/intersect, SpatialIndex.cpp:idByPoint/isInside, htm.py:log_bins "
+                   "(every modelled statement has the expected shape)", gen["error"] is None, gen["error"] or "")
+    if gen["error"] is not None:
+        ctx.violation("C13 translator: the modelled source no longer has the shape the model transcribes: " + gen["error"],
+                      {"kind": "translation", "error": gen["error"],
+                       "no_longer_checks": "Model.v / ModelR.v as a transcription of the anchored code"}, found_input=False)
+    code = "1" if gen["index"] == "cast" else "0"
+    eps = gen["epsilon"]
+    lemmas = [
+        # the bin number the code computes is the floor of the statement (C13_radbin_spec, C13_logbin are about floor)
+        ("forall q : Q, index_of %s q = radbin q" % code, "intro q. reflexivity.",
+         "bin number function read from htmc.cc (%s) = Model.radbin (floor)" % gen["index"]),
+        # the margin of the search cap only ever enlarges the cap
+        ("(0 <= %d # %d)%%Q" % (gen["pad_deg"].numerator, gen["pad_deg"].denominator), "vm_compute. discriminate.",
+         "search-cap margin read from htmc.cc (%s deg) is non-negative" % gen["pad_deg"]),
+    ]
+    res = core.coq_lemmas(os.path.join(ctx.work, "gen"), PRE, [(a, b) for a, b, _ in lemmas], shard=1, tag="c13gen")
+    for (st, _, what), (ok, msg) in zip(lemmas, res):
+        ctx.obligation("regenerated statement: " + what, ok, msg)
+        if not ok:
+            ctx.violation("C13 regenerated statement no longer checks: " + what,
+                          {"kind": "regenerated-statement", "statement": st, "coq": msg[-800:], "translated": {k: str(v) for k, v in gen.items()},
+                           "no_longer_checks": "C13_radbin_spec / C13_logbin applied to the bin-number function of the code under test"},
+                          found_input=False)
+
+
 def run(ctx, replay=None):
     ctx.rule = ("corpus + adversarial families (poles, octant boundaries, seam, mesh vertices/edges, circles passing within 1e-9..1e-1 "
                 "relative of a sample, pairs within 1e-8.5..1e-0.3 relative of bin edges) + seeded random; every case runs the real esutil "
@@ -613,6 +674,7 @@ def run(ctx, replay=None):
     if bad:
         ctx.violation("a discrete C13 theorem depends on an axiom: %s" % bad[:3], {"kind": "assumptions", "bad": bad},
                       found_input=False)
+    translation_step(ctx)
     differential(ctx, PRE, ENTRIES, replay)
     if replay is None:
         real_lemmas(ctx)
